@@ -1,6 +1,6 @@
 """C04 configuration for ./check (keys: see checks/propcfg.py)."""
 CFG = {
-    "modules": ["VaxisModel.Props.C04", "VaxisModel.Props.C04Exit", "VaxisModel.Props.C04Prior"],
+    "modules": ["VaxisModel.Props.C04", "VaxisModel.Props.C04Exit", "VaxisModel.Props.C04Prior", "VaxisModel.Witness.F404"],
     "extractors": ["C04", "C07", "C18", "C11", "C01", "C10"],
     "drivers": ["C04"],
     "stateful": True,
